@@ -595,20 +595,7 @@ def r8_reopen_appends(prog, rep: Report, sf: StorageFacts):
              "registered (its process identifier is known) uses mode 'a'; only the first registration may create the file", floor=1)
     f = prog.method(sf.cls, "open")
     rep.fn(f)
-    # the identifier field: the non-shared field compared with None in open()
-    idf = None
-    for n in walk_own(f.node):
-        if isinstance(n, ast.Compare) and const_value(n.comparators[0], 0) is None:
-            d = dotted(n.left)
-            if d and len(d) == 2 and d[0] == f.self_name and d[1] != sf.wfile and "file" not in d[1].lower():
-                idf = d[1]
-    if idf is None:
-        for k_ in sf.cls.methods.values():
-            for n in walk_own(k_.node):
-                if isinstance(n, ast.Compare) and const_value(n.comparators[0], 0) is None:
-                    d = dotted(n.left)
-                    if d and len(d) == 2 and d[0] == k_.self_name and "identifier" in d[1]:
-                        idf = d[1]
+    idf = identifier_field(sf)
     if idf is None:
         rep.unrec("C14.R8", f, "reopen-appends", "the writer's identifier field is not recognisable in open()")
         return
@@ -637,6 +624,9 @@ def run(prog: Program, rep: Report):
     r7_reader(prog, rep, sf)
     r8_reopen_appends(prog, rep, sf)
     r9_no_stale_handles(prog, rep, sf)
+    r10_derived(prog, rep, sf)
+    from .ownership import rule_no_class_state
+    rule_no_class_state(prog, rep, "C14.R11", [sf.cls])
 
 
 # ---------------------------------------------------------------------------------------------- R9
@@ -689,6 +679,36 @@ class _Stale(Client):
             if d and len(d) == 2 and d[0] == self.me:
                 return (state - {d[1]},)
         return (state,)
+
+
+def identifier_field(sf: StorageFacts) -> Optional[str]:
+    """the writer's identifier: the non-shared field that __setitem__ publishes as the first component of the index entry"""
+    f = sf.setitem
+    for n in walk_own(f.node):
+        if isinstance(n, ast.Assign) and isinstance(n.targets[0], ast.Subscript) and dotted(n.targets[0].value) == (f.self_name, sf.index) \
+                and isinstance(n.value, ast.Tuple) and n.value.elts:
+            d = dotted(n.value.elts[0])
+            if d and len(d) == 2 and d[0] == f.self_name and d[1] not in sf.shared_lists + sf.shared_values:
+                return d[1]
+    return None
+
+
+def reader_cache_fields(sf: StorageFacts) -> Set[str]:
+    """fields holding read handles: containers whose elements close() closes"""
+    close = sf.cls.methods.get("close")
+    out: Set[str] = set()
+    if close is not None:
+        out = set(_Stale(close).var_field.values())
+    return out
+
+
+def r10_derived(prog, rep: Report, sf: StorageFacts):
+    from .memo import public_entry_points, rule_derived_state
+    prim = set(sf.shared_lists) | set(sf.shared_values)
+    known = {sf.wfile, identifier_field(sf)} | reader_cache_fields(sf)
+    rule_derived_state(prog, rep, "C14.R10", sf.cls, prim, public_entry_points(prog, sf.cls), config={k for k in known if k},
+                       what="the index and the counters live in the manager and change in other processes; a process-local copy of "
+                            "index entries (a look-up cache in front of the locked read) is derived state")
 
 
 def r9_no_stale_handles(prog, rep: Report, sf: StorageFacts):
